@@ -1,14 +1,137 @@
 """C03 — every snapshot element carries the style values TTML style resolution prescribes.  Theorems:
-coq/Properties/C03.v.  Tie: M (Model/Isd.v) against ISD.from_model on style-heavy documents (all 36 properties, all
-units, cell/pixel resolutions, writing modes, initial values, animation, every element kind); S (Spec/StyleSpec.v,
-by-property cascade and computation) is evaluated in Coq on every styled element of the implementation's snapshots."""
-import logging, sys
+coq/Properties/C03.v (all 36 properties, every document, time and ancestor chain).  Tie: M (Model/Isd.v) against
+ISD.from_model on style-heavy documents (all 36 properties, all units, cell/pixel resolutions, writing modes, initial
+values, animation, every element kind); S (Spec/StyleSpec.v, by-property cascade and computation) is evaluated in Coq
+on every styled element of the implementation's snapshots.  The generated documents are `boosted` (below) so that the
+situations the property names are reached often: ruby text (halved font size), vertical regions with tts:textEmphasis
+auto on content elements, tts:position as a document initial value, partially specified tts:textDecoration below a
+decorated ancestor (units: docgen already uses every unit the validators of style_properties.py admit).  The input distribution is measured on what the
+snapshots actually show and written to the evidence."""
+import collections, logging, sys
+from fractions import Fraction as F
 import common as C
 import isdlit as L
 import docgen, isdcore, gen_tables
 
 HEADER = ("From TT Require Import Model.Doc Gen.StyleTables Model.Isd Model.IsdCases Spec.StyleSpec Model.StyleSpecCases.\n"
           "Open Scope Z_scope.\n")
+
+LENGTH_PROPS = ("FontSize", "Extent", "Origin", "Position", "Padding", "LineHeight", "LinePadding", "RubyReserve", "TextOutline",
+                "TextShadow", "Disparity")
+
+
+def boost(rng, d, k):
+    """post-process a generated document (all randomness from rng); returns nothing"""
+    import ttconv.model as m, ttconv.style_properties as s
+    SP = s.StyleProperties
+    n = [0]
+    def uid():
+        n[0] += 1; return f"z{n[0]}"
+    body = d.get_body()
+    regs = list(d.iter_regions())
+    elems = [e for e in body.dfs_iterator() if not isinstance(e, (m.Text, m.Br))] if body is not None else []
+    # (a) ruby containers whose children survive pruning (4 documents in 5): otherwise most snapshots of a document with
+    #     ruby raise "Children of ruby do not conform" and the halving rule is hardly reached
+    if k % 5 != 4:
+        for e in elems:
+            if not isinstance(e, (m.Rb, m.Rt, m.Rp, m.Rbc, m.Rtc)): continue
+            e.set_begin(None); e.set_end(None); e.set_region(None); e.set_style(SP.Display, None)
+            for st in list(e.iter_animation_steps()):
+                if st.style_property is SP.Display: e.remove_animation_step(st)
+            if isinstance(e, m.Rtc) and not e.has_children():
+                rt = m.Rt(d); rt.set_id(uid()); e.push_children([rt]); elems.append(rt)
+        for e in elems:
+            if isinstance(e, (m.Rt, m.Rp)):
+                sp = m.Span(d); sp.set_id(uid()); sp.push_child(m.Text(d, "R" + uid())); e.push_child(sp)
+    # (b) vertical regions with tts:textEmphasis auto (and outlines / shadows without colour) on content elements
+    if k % 4 == 1 and regs:
+        for r in regs:
+            if rng.random() < 0.7: r.set_style(SP.WritingMode, rng.choice([s.WritingModeType.tbrl, s.WritingModeType.tblr]))
+        for e in elems:
+            if isinstance(e, (m.Span, m.P, m.Rt, m.Rb, m.Div, m.Body)) and rng.random() < 0.3:
+                e.set_style(SP.TextEmphasis, s.TextEmphasisType(s.TextEmphasisType.Style.auto, rng.choice([None] + docgen.COLORS),
+                                                                rng.choice(list(s.TextEmphasisType.Position))))
+            if isinstance(e, (m.Span, m.P)) and rng.random() < 0.1:
+                # a writing mode on a content element is not applicable and must not influence anything
+                e.set_style(SP.WritingMode, rng.choice(list(s.WritingModeType)))
+    # (d) tts:position as a document initial value
+    if rng.random() < 0.08:
+        d.put_initial_value(SP.Position, docgen.rvalue(rng, SP.Position))
+    # (e) partially specified text decoration below a decorated ancestor
+    for e in elems:
+        if isinstance(e, (m.Span, m.P)) and rng.random() < 0.08:
+            e.set_style(SP.TextDecoration, s.TextDecorationType(*[rng.choice([None, None, True, False]) for _ in range(3)]))
+
+
+class Dist:
+    """what the snapshots that were compared actually exercise"""
+    def __init__(self):
+        self.prop = collections.defaultdict(lambda: [0, 0, 0])      # applicable, specified on the element, animated on it
+        self.units = collections.defaultdict(collections.Counter)
+        self.sit = collections.Counter()
+        self.kinds = collections.Counter()
+        self.errors = collections.Counter()
+
+    def lens(self, v):
+        import ttconv.style_properties as s
+        if isinstance(v, s.LengthType): return [v]
+        out = []
+        for a in ("height", "width", "x", "y", "h_offset", "v_offset", "before", "end", "after", "start", "thickness", "length"):
+            x = getattr(v, a, None)
+            if isinstance(x, s.LengthType): out.append(x)
+        for sh in getattr(v, "shadows", ()) or ():
+            out += [x for x in (sh.x_offset, sh.y_offset, sh.blur_radius) if isinstance(x, s.LengthType)]
+        return out
+
+    def add(self, d, src, parent, isd):
+        import ttconv.model as m, ttconv.style_properties as s
+        SP = s.StyleProperties
+        for r in isd.iter_regions():
+            sr = src.get(r.get_id())
+            wm = r.get_style(SP.WritingMode)
+            vertical = wm in (s.WritingModeType.tbrl, s.WritingModeType.tblr)
+            if sr is not None and not sr.has_style(SP.Direction) and sr.get_style(SP.WritingMode) in (s.WritingModeType.lrtb, s.WritingModeType.rltb):
+                self.sit["direction_from_writing_mode"] += 1
+                if d.has_initial_value(SP.Direction): self.sit["direction_from_writing_mode_against_initial"] += 1
+            for e in r.dfs_iterator():
+                if isinstance(e, (m.Br, m.Text)): continue
+                se = src.get(e.get_id())
+                if se is None: continue
+                self.kinds[type(e).__name__] += 1
+                anim = {a.style_property for a in se.iter_animation_steps()}
+                for p in SP.ALL:
+                    if not e.is_style_applicable(p): continue
+                    c = self.prop[p.__name__]; c[0] += 1
+                    if se.has_style(p):
+                        c[1] += 1
+                        if p.__name__ in LENGTH_PROPS:
+                            for x in self.lens(se.get_style(p)): self.units[p.__name__][x.units.value] += 1
+                    if p in anim: c[2] += 1
+                te = se.get_style(SP.TextEmphasis)
+                if isinstance(te, s.TextEmphasisType) and te.style is s.TextEmphasisType.Style.auto and e.is_style_applicable(SP.TextEmphasis):
+                    self.sit["emphasis_auto"] += 1
+                    if vertical and not isinstance(e, m.Region): self.sit["emphasis_auto_content_vertical_region"] += 1
+                if isinstance(e, (m.Rt, m.Rtc)) and not se.has_style(SP.FontSize):
+                    self.sit["ruby_text_font_size_inherited"] += 1
+                td = se.get_style(SP.TextDecoration)
+                if td is not None and e.is_style_applicable(SP.TextDecoration) and None in (td.underline, td.line_through, td.overline):
+                    self.sit["text_decoration_partial"] += 1
+                    q = parent.get(se)
+                    while q is not None and not q.has_style(SP.TextDecoration): q = parent.get(q)
+                    if q is not None: self.sit["text_decoration_partial_below_decorated_ancestor"] += 1
+                if isinstance(e, m.Region):
+                    po = se.get_style(SP.Position)
+                    if po is not None:
+                        self.sit["position_specified"] += 1
+                        if po.h_edge is s.PositionType.HEdge.right or po.v_edge is s.PositionType.VEdge.bottom: self.sit["position_right_or_bottom"] += 1
+                    elif d.has_initial_value(SP.Position): self.sit["position_from_initial_value"] += 1
+                    pa = se.get_style(SP.Padding)
+                    if pa is not None and vertical: self.sit["padding_in_vertical_region"] += 1
+
+    def report(self):
+        return dict(per_property_applicable_specified_animated={k: v for k, v in sorted(self.prop.items())},
+                    specified_length_units={k: dict(v) for k, v in sorted(self.units.items())},
+                    situations=dict(self.sit), snapshot_element_kinds=dict(self.kinds), snapshot_errors=dict(self.errors))
 
 
 def main():
@@ -19,39 +142,50 @@ def main():
     if errors:
         run.violation("table translator failed closed: " + "; ".join(errors), dict(kind="translator", errors=errors), False)
         return run.finish()
-    ok, log = run.build(["Proofs/C03/FontSize.vo", "Model/StyleSpecCases.vo"], clean=(run.tier == "thorough"))
+    ok, log = run.build(["Proofs/C03/Snapshot.vo", "Model/StyleSpecCases.vo"], clean=(run.tier == "thorough"))
     proofs_ok = ok and run.theorems()
     if not ok: run.proof_log = log[-2500:]
     run.witnesses()
     logging.disable(logging.CRITICAL)
+    import ttconv.model as m
 
     ndocs = 300 if run.tier == "quick" else 8000
     rng = run.rng
     blocks, docs, nq, n_err, n_styled = [], {}, 0, 0, 0
+    dist = Dist()
     for k in range(ndocs):
         g = docgen.Gen(rng, style_density=(0.10, 0.2, 0.3)[k % 3], anim_density=(0.0, 0.03, 0.06)[k % 3], display_p=0.02,
                        ruby_p=0.2, region_ref_p=0.15, timing_p=0.15)
         g.force_initial_direction = (k % 4 == 0)
         if k % 4 == 0: g.ruby_p = 0.0; g.tp = 0.05; g.dp = 0.0
         d = g.doc(nreg=rng.choice([0, 1, 1, 2]))
+        boost(rng, d, k)
+        src, parent = {}, {}
+        if d.get_body() is not None:
+            for e in d.get_body().dfs_iterator():
+                if not isinstance(e, m.Text) and e.get_id(): src[e.get_id()] = e
+                for c in e: parent[c] = e
+        for r in d.iter_regions(): src[r.get_id()] = r
         qs = docgen.query_times(rng, d, 5 if run.tier == "quick" else 8)
         items = []
         for t in qs:
             lit, obj = isdcore.snapshot(d, t)
             items.append(f"({L.qlit(t)}, {'None' if lit is None else '(Some ' + lit + ')'})")
-            if lit is None: n_err += 1
-            else: n_styled += sum(1 for r in obj.iter_regions() for e in r.dfs_iterator() if any(True for _ in e.iter_styles()))
+            if lit is None:
+                n_err += 1; dist.errors[type(obj).__name__ + ": " + str(obj)[:60]] += 1
+            else:
+                n_styled += sum(1 for r in obj.iter_regions() for e in r.dfs_iterator() if any(True for _ in e.iter_styles()))
+                dist.add(d, src, parent, obj)
         nq += len(qs); docs[k] = (d, qs)
         defs = f"Definition d{k} := {L.doc_lit(d)}.\nDefinition q{k} : list (Q * option (list elem)) := [{'; '.join(items)}]."
-        blocks.append((k, defs, [f"cases_isd d{k} q{k}", f"cases_styles [p_TextEmphasis] d{k} q{k}", f"cases_styles [] d{k} q{k}"], [len(qs)] * 3))
+        blocks.append((k, defs, [f"cases_isd d{k} q{k}", f"cases_styles [] d{k} q{k}", f"cases_hyp d{k} q{k}"], [len(qs)] * 3))
     files = isdcore.write_shards("Cases_C03_", HEADER, blocks)
     bad, broken = isdcore.eval_shards(files)
     C.clean_cases("Cases_C03_")
-    m_bad = bad.get(0, []); s_bad = bad.get(1, []); strict = bad.get(2, [])
-    emph = [c for c in strict if c not in s_bad]
+    m_bad = bad.get(0, []); s_bad = bad.get(1, []); h_bad = bad.get(2, [])
     run.log(f"{ndocs} documents, {nq} snapshots ({n_err} raised), {n_styled} styled elements: model/code mismatches {len(m_bad)}, "
-            f"S failures outside findings {len(s_bad)}, text-emphasis failures {len(emph)}, broken {len(broken)}")
-    if emph: run.known("textemphasis-auto-parent-writing-mode", f"{len(emph)} snapshots")
+            f"S failures {len(s_bad)}, theorem hypotheses false {len(h_bad)}, broken {len(broken)}")
+    run.log("situations reached: " + ", ".join(f"{k}={v}" for k, v in sorted(dist.sit.items())))
 
     def replay(case):
         k, i = case; d, qs = docs[k]
@@ -60,8 +194,9 @@ def main():
     if s_bad:
         run.violation(f"computed styles differ from TTML2 style resolution (document {s_bad[0][0]}, time index {s_bad[0][1]})",
                       dict(kind="S-on-code", spec="coq/Spec/StyleSpec.v computed_spec", first=replay(s_bad[0]), count=len(s_bad)))
-    if (m_bad or broken or not proofs_ok) and not s_bad:
+    if (m_bad or broken or h_bad or not proofs_ok) and not s_bad:
         what = []
+        if h_bad: what.append(f"the hypotheses of C03_snapshot_values (styles_wf, td_typed along every chain) do not hold on {len(h_bad)} generated inputs")
         if not proofs_ok: what.append("theorems of coq/Properties/C03.v no longer check: " + getattr(run, "proof_log", "")[-500:])
         if m_bad: what.append(f"correspondence Model/Isd.v vs ISD.from_model disagrees on {len(m_bad)} snapshots")
         if broken: what.append(f"case files did not evaluate: {broken[0]}")
@@ -72,12 +207,17 @@ def main():
                    rule="style-heavy random documents: each of the 36 properties with every admissible unit / value form (none, normal, "
                         "transparent, 1-2 shadows, emphasis with/without colour, ruby reserve with/without length), cell resolutions "
                         "{15x32, 24x40, 1x1, 53x97}, pixel resolutions, 4 writing modes, initial-value overrides, animation; every element kind "
-                        "incl. both ruby patterns. Every styled element of every snapshot is compared with M and with the by-property "
-                        "specification in Coq. distinct_nontrivial = styled snapshot elements compared.",
+                        "incl. both ruby patterns; boosted: conforming ruby containers, vertical regions with emphasis auto on content "
+                        "elements, position as initial value, partial text decoration. Every styled "
+                        "element of every snapshot is compared with M and with the by-property specification in Coq. "
+                        "distinct_nontrivial = styled snapshot elements compared.",
                    samples=[dict(document=L.doc_lit(docs[1][0])[:1500], times=[str(t) for t in docs[1][1]])],
-                   documents=ndocs, snapshots_raising=n_err, model_code_mismatches=len(m_bad), s_failures_on_code=len(s_bad))
+                   documents=ndocs, snapshots_raising=n_err, model_code_mismatches=len(m_bad), s_failures_on_code=len(s_bad), theorem_hypotheses_false=len(h_bad),
+                   input_distribution=dist.report())
     run.assumptions += ["binary64 rounding inside the Python computation is not modelled: numbers are compared with relative tolerance 1e-9",
-                        "well-formed documents with unique xml:id (used to trace snapshot elements back to the source)"]
+                        "well-formed documents with unique xml:id (used to trace snapshot elements back to the source)",
+                        "C03_all_properties assumes td_typed: tts:textDecoration values in effect are TextDecoration values (enforced by "
+                        "ttconv.model set_style / add_animation_step / put_initial_value)"]
     return run.finish(["harness/isdlit.py", "harness/gen_core.py"])
 
 
